@@ -228,8 +228,9 @@ class Spy:
         self.calls = []
 
     async def get_settings(self, config):
+        before = list(self.real.settings)
         obj = await self.real.get_settings(config)
-        self.calls.append((config, obj))
+        self.calls.append((config, obj, before))
         return obj
 
     def __getattr__(self, name):
@@ -521,6 +522,9 @@ class Hist:
         # from - must get this very object and create nothing
         if not was_known:
             for i in sorted(set(ids)):
+                if len([o for o in self.st.settings if i in rec_ids(self.drv.content(o))]) != 1:
+                    self.flags.add("ambiguous-identifier")
+                    continue
                 for p, en in (("raop", True), ("dmap", False)):
                     n = len(self.st.settings)
                     probe = self.drv.config([{"p": p, "id": i, "cr": None, "pw": None, "en": en}])
@@ -688,8 +692,9 @@ class Hist:
             confs = [drv.config(c, "10.0.1.%d" % (i + 1), "dev%d" % i) for i, c in enumerate(cfgs)]
             flt = o.get("identifier")
             arg = set(flt) if isinstance(flt, list) else flt
+            # BaseConfig.ready: some service has a (non-empty) identifier
             wanted = [i for i, c in enumerate(cfgs)
-                      if any(s["id"] is not None for s in c)
+                      if any(s["id"] for s in c)
                       and (not flt or set(flt if isinstance(flt, list) else [flt]) & {s["id"] for s in c if s["id"] is not None})]
             with Glue(confs):
                 res = drv.run(pyatv.scan(drv.loop, timeout=0, identifier=arg, storage=spy,
@@ -733,14 +738,14 @@ class Hist:
                     self.enter({"op": "get", "cfg": o["cfg"]}, ("raise", type(ex).__name__))
                     return
             self.learn()
-            obj = [x for (c, x) in spy.calls if c is conf]
+            obj = [x for (c, x, _b) in spy.calls if c is conf]
             used = g.cores[-1].settings if g.cores else None
             if not obj or used is not obj[-1]:
                 self.err("C14:lookup:pair-uses-other-settings", "pair() hands the protocol a settings object other than the one stored for the configuration")
             self.learn(used)
             self.enter({"op": "get", "cfg": o["cfg"]}, ("handle", self.handle_of(used)))
             if obj:
-                self.judge_lookup(o["cfg"], conf, obj[-1], before)
+                self.judge_lookup(o["cfg"], conf, obj[-1], [b for (c, _x, b) in spy.calls if c is conf][-1])
 
     def enter(self, op, obs):
         self.ops.append(op)
@@ -748,11 +753,11 @@ class Hist:
 
     def enter_applied(self, cfg, conf, applied, spy, before):
         """`conf` was resolved through get_settings and the result applied to `applied`."""
-        obj = [x for (c, x) in spy.calls if c is conf]
+        obj = [(x, b) for (c, x, b) in spy.calls if c is conf]
         if not obj:
             self.ties.append({"what": "no get_settings call seen for a configuration that was returned"})
             return
-        obj = obj[-1]
+        obj, before = obj[-1]
         self.enter({"op": "scan", "cfg": cfg},
                    ("applied", self.handle_of(obj),
                     [{"p": s["p"], "id": svc.identifier, "cr": svc.credentials, "pw": svc.password, "en": bool(svc.enabled)}
@@ -832,6 +837,15 @@ def rand_op(rng, sections, nh, extra_pw):
         return {"op": "load"}
     if r < 0.905:
         return {"op": "loadfault", "how": rng.choice(["read", "corrupt"])}
+    if r < 0.935:
+        devs = [rand_cfg(rng, sections, extra_pw) for _ in range(rng.randrange(1, 5))]
+        flt = rng.choice([None, None, rng.choice(IDS[:4]), [rng.choice(IDS[:4]), rng.choice(IDS[:4])]])
+        return {"op": "pyscan", "devices": devs, "identifier": flt, "unicast": rng.random() < 0.3}
+    if r < 0.95:
+        return {"op": "pyconnect", "cfg": rand_cfg(rng, sections, extra_pw)}
+    if r < 0.965:
+        c = rand_cfg(rng, sections, extra_pw)
+        return {"op": "pypair", "cfg": c, "proto": rng.choice(c)["p"]}
     if r < 0.93:
         return {"op": "fresh"}
     return {"op": "changed"}
@@ -966,6 +980,14 @@ def shrink(drv, kind, init, ops, key):
                 ops = cand
                 progress = True
         for i, o in enumerate(ops):
+            if "devices" in o and len(o["devices"]) > 1:
+                for j in range(len(o["devices"])):
+                    cand = ops[:i] + [dict(o, devices=o["devices"][:j] + o["devices"][j + 1:])] + ops[i + 1:]
+                    if fails(init, cand):
+                        ops = cand
+                        progress = True
+                        break
+        for i, o in enumerate(ops):
             if "cfg" in o and len(o["cfg"]) > 1:
                 for j in range(len(o["cfg"])):
                     cand = ops[:i] + [dict(o, cfg=o["cfg"][:j] + o["cfg"][j + 1:])] + ops[i + 1:]
@@ -1014,6 +1036,32 @@ def histories(ctx, sections):
             yield ("failed-save", "file", None, pre + [{"op": "get", "cfg": [a]}, {"op": "save"}, setc, f, f, {"op": "changed"}, {"op": "fresh"}, {"op": "load"}, {"op": "changed"}])
             yield ("failed-save", "file", None, pre + [{"op": "get", "cfg": [a]}, f, {"op": "remove", "h": 0}, {"op": "changed"}, f, {"op": "save"}])
             yield ("failed-save", "file", None, pre + [{"op": "get", "cfg": [a]}, {"op": "save"}, setc, f, {"op": "load"}, {"op": "changed"}, {"op": "save"}])
+    # the glue: scan()/connect()/pair() against a storage holding per-device credentials; discovered
+    # lists with devices that scan() drops (no identifier / excluded by identifier=) at every position
+    def svc(p, i, cr=None, pw=None):
+        return {"p": p, "id": i, "cr": cr, "pw": pw, "en": True}
+    stored = {"A": [svc("mrp", "A"), svc("airplay", "A2")], "B": [svc("raop", "B"), svc("companion", "B2")], "C": [svc("dmap", "C")]}
+    populate = []
+    for n, (name, c) in enumerate(stored.items()):
+        populate.append({"op": "get", "cfg": c})
+        for sv in c:
+            populate.append({"op": "set", "h": n, "sec": sv["p"], "key": "credentials", "val": "cred-%s-%s" % (name, sv["p"])})
+            if sv["p"] in ("airplay", "raop"):
+                populate.append({"op": "set", "h": n, "sec": sv["p"], "key": "password", "val": "pw-%s-%s" % (name, sv["p"])})
+    seen_as = {"A": [svc("airplay", "A2"), svc("mrp", "A", cr="own-mrp")], "B": [svc("companion", "B2"), svc("raop", "B")], "C": [svc("dmap", "C")]}
+    noid = [svc("mrp", None, cr="x")]
+    unknown = [svc("mrp", "Z")]
+    tail = [{"op": "pyconnect", "cfg": seen_as["A"]}, {"op": "pypair", "cfg": seen_as["B"], "proto": "raop"}, {"op": "changed"}]
+    for kind, pre in (("memory", populate), ("file", populate + [{"op": "save"}, {"op": "fresh"}, {"op": "load"}])):
+        for order in itertools.permutations("ABC"):
+            base = [seen_as[x] for x in order]
+            for pos in range(4):
+                for drop, flt in ((noid, None), (unknown, ["A", "B2", "C"]), (noid, ["A2", "C"])):
+                    devs = base[:pos] + [drop] + base[pos:]
+                    yield ("glue", kind, None, pre + [{"op": "pyscan", "devices": devs, "identifier": flt, "unicast": pos % 2 == 1}] + tail)
+            for flt in ("A", "B2", ["C", "A2"], "Z"):
+                yield ("glue", kind, None, pre + [{"op": "pyscan", "devices": base + [unknown], "identifier": flt}] + tail)
+
     # every declared field with every candidate value through save and a load into a fresh storage
     for sec, fl in sections:
         for f in fl:
@@ -1063,7 +1111,9 @@ def run(ctx):
     if ctx.thorough:
         ctx.coqchk()
     ctx.rule = ("histories of get/scan(get+apply)/update/remove/set-field/save/load/fresh-storage/changed and save/load with an "
-                "injected file-system fault (open, write or os.replace raising; read raising or yielding garbage) on the real "
+                "injected file-system fault (open, write or os.replace raising; read raising or yielding garbage), and the real "
+                "pyatv.scan / connect / pair run against the storage with the scanner classes, facade and protocol table replaced "
+                "(discovered lists with dropped devices at every position), on the real "
                 "MemoryStorage and FileStorage: the corpus, every sequence up to the stated depth over a 13-operation "
                 "alphabet (two devices with overlapping identifiers), and seeded random histories of 1-11 operations over "
                 "configurations of 1-3 services with identifiers from a pool of 6 (incl. empty and non-ASCII), values incl. "
@@ -1078,22 +1128,24 @@ def run(ctx):
             snap = h.snapshot()
             ctx.traces += 1
             ctx.count("src:" + src)
-            ctx.count("len:%d" % len(h.ops))
-            for o in h.ops:
+            ctx.count("len:%d" % len(h.rops))
+            for o in h.rops:
                 ctx.count("op:" + o["op"])
             for x in h.obs:
                 if x[0] == "raise":
                     ctx.count("raise:" + x[1])
             for fl in h.flags:
                 ctx.count("flag:" + fl)
-            rep = {"kind": kind, "initial_file": list_file(h.init_canon), "ops": h.ops}
+            rep = {"kind": kind, "initial_file": list_file(h.init_canon), "ops": h.rops}
+            for t in h.ties:
+                ctx.tie_broken("correspondence:scan-glue", json.dumps({"history": rep, "detail": t}, default=repr))
             ctx.case(json.dumps(rep, sort_keys=True), nontrivial=bool(snap["handles"]) or snap["file"] is not None,
                      sample={"kind": kind, "ops": h.ops, "returned": h.obs, "stored_handles": snap["handles"],
                              "changed": snap["changed"]} if (src.startswith("random") and len(h.ops) in (4, 5)) else None)
             for key, what in h.errors:
                 if key not in reported:
                     reported.add(key)
-                    ctx.violation(key, what, shrink(drv, kind, h.init_canon, h.ops, key))
+                    ctx.violation(key, what, shrink(drv, kind, h.init_canon, h.rops, key))
             cases.append((h, snap, rep))
     finally:
         drv.close()
@@ -1128,6 +1180,9 @@ def run(ctx):
                         {"history": rep, "impl_returned": h.obs, "impl_final": {"handles": snap["handles"], "changed": snap["changed"]}}, default=repr))
     ctx.extra["correspondence_mismatches"] = nbad
     ctx.trusted += [
+        "pyatv.scan / connect / pair are driven with fake scanner classes, a fake facade and a fake protocol table substituted in the pyatv "
+        "package namespace (harness/c14.py Glue); their filtering, get_settings and apply code is the real one and is entered into the history as the "
+        "equivalent model operations",
         "hand-written model coq/C14/Model.v of pyatv/storage/__init__.py, file_storage.py, memory_storage.py, BaseConfig.apply/BaseService.apply and "
         "pydantic_compat.model_copy, tied on every run by executing each history on the real storage classes and in the model (vm_compute)",
         "translator harness/c14.py gen(): pydantic schema of pyatv/settings.py -> coq/C14/Gen.v, regenerated on every run, fails closed on any field kind it does not know",
@@ -1150,6 +1205,9 @@ def replay(ctx, path):
         h = exec_history(drv, r["kind"], tuple_file(r.get("initial_file")), r["ops"])
     finally:
         drv.close()
+    for o in h.rops:
+        if o["op"].startswith("py"):
+            print("executed:", json.dumps(o, ensure_ascii=False))
     for o, x in zip(h.ops, h.obs):
         print(json.dumps(o, ensure_ascii=False), "->", x)
     keys = sorted(set(k for k, _ in h.errors))
